@@ -686,3 +686,49 @@ func (p *Program) UpParam(t *Term) *Term {
 	}
 	return t
 }
+
+// UpParamsDeep: every parameter of an unexported function with a single call site that occurs inside t is
+// replaced by the argument of that call site (a closure built by a named constructor sees the
+// constructor's parameters; what they stand for is known at the one place the constructor is called).
+func (p *Program) UpParamsDeep(t *Term) *Term {
+	for d := 0; d < 3; d++ {
+		var fns []*ssa.Function
+		seen := map[*ssa.Function]bool{}
+		t.Has(func(x *Term) bool {
+			if x.Op == "param" && x.Fn != nil && !seen[x.Fn] && x.Fn.Object() != nil && !x.Fn.Object().Exported() {
+				seen[x.Fn] = true
+				fns = append(fns, x.Fn)
+			}
+			return false
+		})
+		changed := false
+		for _, g := range fns {
+			var site *ssa.CallCommon
+			n := 0
+			for _, f := range p.ModFuncs {
+				eachInstr(f, func(in ssa.Instruction) {
+					if cc := callCommon(in); cc != nil && cc.StaticCallee() == g {
+						n++
+						site = cc
+					}
+				})
+			}
+			if n != 1 {
+				continue
+			}
+			var args []*Term
+			for _, a := range site.Args {
+				args = append(args, p.TermOf(a))
+			}
+			nt := t.Subst(g, args)
+			if nt.String() != t.String() {
+				t = nt
+				changed = true
+			}
+		}
+		if !changed {
+			break
+		}
+	}
+	return t
+}
